@@ -379,9 +379,20 @@ func RunC07(ctx *hx.Ctx, f *codec.Format, budget int, lateClass string) {
 			}
 			end := start[k+1] // index of the first packet after group k
 			hasNext := end < len(stream)
+			// frames are told apart by content: several access units of the history may carry the same bytes (tiny
+			// ones; thorough-tier false alarm of 2026-09-23): each of them may be returned once, and the "first
+			// return" of frame k may then be the return of an earlier twin - such frames are not judged for timing
+			same := 0
+			for _, x := range frames {
+				if frameEq(x, frames[k]) {
+					same++
+				}
+			}
 			switch {
-			case total > 1:
-				ctx.Failf(-1, "resync-duplicate", where, "%s: intact frame %d was returned %d times", f.Name, k, total)
+			case total > same:
+				ctx.Failf(-1, "resync-duplicate", where, "%s: intact frame %d was returned %d times (%d frames of the history have this content)", f.Name, k, total, same)
+			case same > 1:
+				// ambiguous identity: only the multiplicity is checked
 			case total == 1 && first < start[k]:
 				ctx.Failf(-1, "resync-early", where, "%s: frame %d was returned at packet %d, before its own packets", f.Name, k, first)
 			case total == 1 && first <= end:
